@@ -148,8 +148,41 @@ def host(ctx, r_seed):
             return ctx.cur_parser.eval(['1 + 2', '[1, 2, 3] | map(v => v * 2) | sum', 'x = 5\nx * x', 'len("abc") + 1'][int(k) % 4], {}, None, 60)
         finally:
             r.depth -= 1
+    class HostObj:
+        """a host value whose comparison / truth / text methods call back into the program: the callbacks run inside whatever builtin compares, sorts,
+        searches or prints the value, and are part of this call's budget like every other evaluation of a lambda body"""
+        def __init__(self, f, i):
+            self.f, self.i = f, i
+
+        def __repr__(self):
+            return 'HostObj(%d)' % self.i
+
+        def __eq__(self, other):
+            rec[0].event('obj_eq', self.i)
+            self.f(D(self.i))
+            return False
+
+        def __lt__(self, other):
+            rec[0].event('obj_lt', self.i)
+            self.f(D(self.i))
+            return self.i < getattr(other, 'i', 0)
+
+        def __bool__(self):
+            rec[0].event('obj_bool', self.i)
+            self.f(D(self.i))
+            return True
+
+        def __str__(self):
+            rec[0].event('obj_str', self.i)
+            return 'o%s' % (self.f(D(self.i)),)
+
+        __hash__ = None
+
+    def objs(f, n):
+        rec[0].event('objs', brief(n))
+        return [HostObj(f, i) for i in range(int(n))]
     names = gen2.host_names(random.Random(r_seed))
-    names.update({'emit': emit, 'try_': try_, 'hm': hm, 'reenter': reenter, 'a': D(1), 'b': D(2), 'x': D(3), 'hv': D(10), 'hs': 'host', 'hl': [D(1), D(2)]})
+    names.update({'emit': emit, 'try_': try_, 'hm': hm, 'reenter': reenter, 'objs': objs, 'a': D(1), 'b': D(2), 'x': D(3), 'hv': D(10), 'hs': 'host', 'hl': [D(1), D(2)]})
     return names
 
 
@@ -157,6 +190,8 @@ EXTRA = ['emit(%s)', 'emit(%s, 1)', 'try_(%s, 1)', 'try_(%s, "a", 2)', 'hm(%s, 3
          'filter([1, 2, 3], %s)', 'emit(map([1, 2], v => emit(v)))', 'push(h_list, emit(4))', 'h_dict["z"] = emit(5)', 'try_(v => push(h_list, nope), 1)', 'sorted([3, 1, 2], v => emit(0 - v))',
          'reduce([1, 2, 3], (p, q) => emit(p + q))', 'try_(%s)', 'emit(1) and emit(0) and emit(2)', 'emit(0) or emit(3)', 'emit(1) if emit(0) else emit(2)', '[emit(1), emit(2)][emit(0)]',
          'reenter(1)', 'emit(reenter(0))', 'map([0, 1, 2], v => reenter(v))', 'reenter(2) + reenter(3)', 'try_(v => reenter(v), 1)',
+         'index_of(objs(%s, 4), 99)', '99 in objs(%s, 3)', 'remove(objs(%s, 3), 99)', 'sorted(objs(%s, 3))', 'max(objs(%s, 3))', 'objs(%s, 2)[0] == 1', 'not objs(%s, 1)[0]',
+         '"s" + objs(%s, 1)[0]', '{"k": 1}[objs(%s, 1)[0]]', 'emit(index_of(objs(v => emit(v) + v, 3), 5))', 'objs(%s, 2)[1] and emit(7)', 'try_(v => index_of(objs(%s, 3), v), 9)',
          'rec = n => 0 if n < 1 else emit(n) + rec(n - 1)\nrec(4)', 'loop = n => loop(n + 1)\ntry_(loop, 0)', 'loop2 = n => emit(n) + loop2(n + 1)\nloop2(0)']
 
 
